@@ -521,6 +521,9 @@ func (pe *panicEngine) enumerate(info *types.Info, vi *varInfo, fg *FGraph, wher
 					by = fmt.Sprintf("guard (path-wise, %d entry paths): 0 <= %s < len(%s) on every path", len(sets), exprStr(t.Index), exprStr(t.X))
 				}
 			}
+			if by == "" {
+				by = pe.callerEstablished(info, self, pr, factsFor(t.Pos()), t)
+			}
 			if dbg := os.Getenv("RARECHECK_FACTS"); dbg != "" && strings.HasSuffix(pe.c.Pos(t.Lbrack), dbg) {
 				fmt.Fprintf(os.Stderr, "FACTS at %s %s by=%q\n", pe.c.Pos(t.Lbrack), exprStr(t), by)
 				for _, f := range factsFor(t.Pos()) {
@@ -553,6 +556,9 @@ func (pe *panicEngine) enumerate(info *types.Info, vi *varInfo, fg *FGraph, wher
 				if all {
 					by = fmt.Sprintf("guard (path-wise, %d entry paths): slice bounds of %s hold on every path", len(sets), exprStr(t.X))
 				}
+			}
+			if by == "" {
+				by = pe.callerEstablished(info, self, pr, factsFor(t.Pos()), t)
 			}
 			pe.add("slice", where, t, t.Lbrack, by, "")
 		case *ast.BinaryExpr:
@@ -757,6 +763,45 @@ func (pe *panicEngine) emit(r *Report, rule string, filter func(o panicOb) bool)
 				r.OK(ru, o.Where, o.Expr, pos, "reviewed (locals renamed "+strings.Join(mm, ",")+"): "+re.Reason)
 				done = true
 				break
+			}
+		}
+		if !done {
+			// third chance: the construct was moved, unchanged, into a private helper of the function the
+			// entry was reviewed in (extract-method). Admissible when every call of the helper comes from
+			// that function (or from other such helpers of it); the entry's guards must hold at the
+			// construct or at every call site of the helper.
+			if owner, sites := pe.extractedFrom(o); owner != "" {
+				for i, re := range pe.reviewed {
+					max := re.Max
+					if max == 0 {
+						max = 1
+					}
+					if re.Kind != o.Kind || re.Where != owner || used[i] >= max || !(re.Expr == o.Expr || (o.inl != "" && re.Expr == o.inl)) {
+						continue
+					}
+					okNeeds := true
+					for _, nd := range re.Needs {
+						if o.needs != nil && o.needs(nd) {
+							continue
+						}
+						atAll := len(sites) > 0
+						for _, s := range sites {
+							if !s(nd) {
+								atAll = false
+							}
+						}
+						if !atAll {
+							okNeeds = false
+						}
+					}
+					if !okNeeds {
+						continue
+					}
+					used[i]++
+					r.OK(ru, o.Where, o.Expr, pos, "reviewed (construct extracted from "+owner+" into a helper only it calls): "+re.Reason)
+					done = true
+					break
+				}
 			}
 		}
 		if done {
@@ -1074,4 +1119,137 @@ func renameIdents(s string, m map[string]string) string {
 		}
 		return t
 	})
+}
+
+
+// extractedFrom: when the obligation sits in an unexported function or method
+// all of whose calls come from one top-level function F of the same package
+// (directly, or through other helpers with the same property), returns F's
+// display name and, for the direct call sites of the helper, functions that
+// decide a guard relation at that call site.
+func (pe *panicEngine) extractedFrom(o panicOb) (string, []func(string) bool) {
+	fd, ok := o.outer.(*ast.FuncDecl)
+	if !ok || fd.Name.IsExported() {
+		return "", nil
+	}
+	var pkg *packagesPkg
+	for _, p := range pe.c.Pkgs {
+		for _, f := range p.Syntax {
+			if f.Pos() <= fd.Pos() && fd.End() <= f.End() {
+				pkg = p
+			}
+		}
+	}
+	if pkg == nil {
+		return "", nil
+	}
+	info := pkg.TypesInfo
+	callersOf := func(target *ast.FuncDecl) (decls []*ast.FuncDecl, calls []*ast.CallExpr, asValue bool) {
+		obj := info.Defs[target.Name]
+		for _, f := range pkg.Syntax {
+			for _, d := range f.Decls {
+				cd, ok := d.(*ast.FuncDecl)
+				if !ok || cd.Body == nil {
+					continue
+				}
+				inCall := map[*ast.Ident]bool{}
+				ast.Inspect(cd.Body, func(n ast.Node) bool {
+					if ce, ok := n.(*ast.CallExpr); ok {
+						if f := calleeFunc(info, ce); f != nil && f.Origin() == obj {
+							decls = append(decls, cd)
+							calls = append(calls, ce)
+							switch fn := ast.Unparen(ce.Fun).(type) {
+							case *ast.Ident:
+								inCall[fn] = true
+							case *ast.SelectorExpr:
+								inCall[fn.Sel] = true
+							}
+						}
+					}
+					return true
+				})
+				ast.Inspect(cd.Body, func(n ast.Node) bool {
+					if id, ok := n.(*ast.Ident); ok && info.Uses[id] == obj && !inCall[id] {
+						asValue = true
+					}
+					return true
+				})
+			}
+		}
+		return
+	}
+	// climb to the unique owner
+	cur := fd
+	var direct []*ast.CallExpr
+	var directDecls []*ast.FuncDecl
+	for depth := 0; depth < 3; depth++ {
+		decls, calls, asValue := callersOf(cur)
+		if asValue || len(decls) == 0 {
+			return "", nil
+		}
+		if depth == 0 {
+			direct, directDecls = calls, decls
+		}
+		first := decls[0]
+		for _, d := range decls {
+			if d != first {
+				return "", nil
+			}
+		}
+		if first == cur {
+			return "", nil // recursion
+		}
+		cur = first
+		if cur.Name.IsExported() || !isPrivateHelper(info, pkg, cur) {
+			break
+		}
+	}
+	owner := funcDisplayName(pkg.PkgPath, cur)
+	var sites []func(string) bool
+	for i, ce := range direct {
+		sites = append(sites, pe.needsAtCall(pkg, directDecls[i], ce))
+	}
+	return owner, sites
+}
+
+// isPrivateHelper: an unexported function whose every use is a call from exactly one other function.
+func isPrivateHelper(info *types.Info, pkg *packagesPkg, fd *ast.FuncDecl) bool {
+	if fd.Name.IsExported() {
+		return false
+	}
+	obj := info.Defs[fd.Name]
+	callers := map[*ast.FuncDecl]bool{}
+	for _, f := range pkg.Syntax {
+		for _, d := range f.Decls {
+			cd, ok := d.(*ast.FuncDecl)
+			if !ok || cd.Body == nil {
+				continue
+			}
+			ast.Inspect(cd.Body, func(n ast.Node) bool {
+				if id, ok := n.(*ast.Ident); ok && info.Uses[id] == obj {
+					callers[cd] = true
+				}
+				return true
+			})
+		}
+	}
+	return len(callers) == 1 && !callers[fd]
+}
+
+// needsAtCall decides guard relations from the facts that hold at a call site.
+func (pe *panicEngine) needsAtCall(pkg *packagesPkg, decl *ast.FuncDecl, ce *ast.CallExpr) func(string) bool {
+	info := pkg.TypesInfo
+	body := decl.Body
+	for _, fl := range funcLitsIn(decl.Body) {
+		if within(fl.Body, ce.Pos()) && within(body, fl.Pos()) {
+			body = fl.Body
+		}
+	}
+	vi := analyseVars(info, decl)
+	fg := NewFGraph(body, info)
+	fg.SolveFacts(vi)
+	pr := &prover{info: info, vi: vi, fg: fg, body: body}
+	return func(rel string) bool {
+		return pr.holdsText(rel, fg.FactsAtPos(ce.Pos()))
+	}
 }
